@@ -8,7 +8,7 @@
 //!   api <op> ~ <op> ~ ...                  a sequence of public-API calls on a fresh seeded database,
 //!                                          run in a CHILD process (`c22 worker`) so that aborts
 //!                                          (stack overflow) and hangs (5 s watchdog, re-checked
-//!                                          alone with 30 s) are observed; exploration only, no model
+//!                                          alone with 20 s) are observed; exploration only, no model
 //! Modes: gen (with --lines), search (oracle only: any panic / abort / timeout), worker (internal).
 use std::io::{BufRead, BufReader, Write};
 use std::process::{Child, Command, Stdio};
@@ -236,7 +236,7 @@ const SETUP: [&str; 9] = [
     "INSERT INTO t1 (id, a, b, c, bo) VALUES (1, 10, 'one', 1.5, TRUE), (2, 20, 'two', -2.25, FALSE), (3, NULL, NULL, NULL, NULL), (4, -5, 'héllo wörld', 0.0, TRUE)",
     "INSERT INTO t1 (id, tm, dt, ts) VALUES (5, '12:34:56', '2024-02-29', '2024-02-29 12:34:56')",
     "INSERT INTO t2 (id, x, y) VALUES (1, 10, 'a'), (2, 20, 'b'), (3, 30, NULL)",
-    "INSERT INTO t3 (k, v, n) VALUES ('p', '[1.0, 2.0, 3.0]', 9223372036854775807), ('q', '[0.0, 0.0, 0.0]', -9223372036854775808)",
+    "INSERT INTO t3 (k, v, n) VALUES ('p', '[1.0, 2.0, 3.0]', 4000000000), ('q', '[0.0, 0.0, 0.0]', -4000000000)",
     "INSERT INTO t1 (id, j) VALUES (6, '{\"a\": [1, 2, {\"b\": null}], \"c\": \"x\"}')",
 ];
 
@@ -402,7 +402,9 @@ impl Worker {
         let _ = std::fs::remove_dir_all(&dir);
         std::fs::create_dir_all(&dir).expect("worker dir");
         let exe = std::env::current_exe().expect("exe");
-        let mut child = Command::new(exe).arg("worker").arg("--out").arg(&dir)
+        // the child gets an address-space limit: a runaway allocation must end as an abort of the child,
+        // not as memory pressure on the machine
+        let mut child = Command::new("sh").arg("-c").arg("ulimit -v 3000000; exec \"$0\" worker --out \"$1\"").arg(exe).arg(&dir)
             .stdin(Stdio::piped()).stdout(Stdio::piped()).stderr(Stdio::null()).spawn().expect("spawn worker");
         let out = child.stdout.take().unwrap();
         let (tx, rx) = mpsc::channel();
@@ -451,7 +453,7 @@ fn run_api_lines(lines: &[String], nw: usize) -> Vec<ApiOut> {
                     if o == ApiOut::Timeout {
                         // re-check alone, generous limit: machine load must not look like a hang
                         w.kill(); gen += 1; w = Worker::spawn(&format!("{}-{}", k, gen));
-                        o = w.run(&lines[i], Duration::from_secs(30));
+                        o = w.run(&lines[i], Duration::from_secs(20));
                     }
                     if !matches!(o, ApiOut::Ok(..)) { w.kill(); gen += 1; w = Worker::spawn(&format!("{}-{}", k, gen)); }
                     res.push((i, o));
@@ -511,10 +513,11 @@ fn msg_class(m: &str) -> u32 {
 }
 /// features of a case (see Corr/C22.v `Api`): [f0 max bracket / prefix-keyword nesting, f1 longest run of consecutive
 /// comments, f2 non-ASCII inside a quoted string or text parameter, f3 chain length (binary-operator characters and
-/// AND/OR/UNION/JOIN keywords outside strings), f4 Decimal parameter with scale >= 39, f5 INSERT / UPDATE present,
-/// f6 function mask (1 LPAD/RPAD/REPEAT/SPACE, 2 DATE_FORMAT/TIME_FORMAT/STRFTIME), f7 a string literal that is exactly '"']
+/// AND/OR/UNION/JOIN keywords outside strings), f4 Decimal parameter with scale >= 39 or < 0, f5 INSERT / UPDATE present,
+/// f6 function mask (1 LPAD/RPAD/REPEAT/SPACE, 2 DATE_FORMAT/TIME_FORMAT/STRFTIME, 4 FORMAT), f7 a string literal that is exactly '"',
+/// f8 a LIMIT / OFFSET literal >= 2^63]
 fn features(ops: &[String]) -> Vec<u64> {
-    let (mut nest, mut run, mut nonascii, mut chain, mut dec, mut wr, mut fmask, mut jq) = (0u64, 0u64, 0u64, 0u64, 0u64, 0u64, 0u64, 0u64);
+    let (mut nest, mut run, mut nonascii, mut chain, mut dec, mut wr, mut fmask, mut jq, mut biglim) = (0u64, 0u64, 0u64, 0u64, 0u64, 0u64, 0u64, 0u64, 0u64);
     for op in ops {
         let op = &expand_op(op);
         let code = op.split(' ').next().unwrap_or("");
@@ -522,7 +525,7 @@ fn features(ops: &[String]) -> Vec<u64> {
         if code == "X" || code == "PB" || code == "PQ" {
             if let Some(i) = sql.find(" | ") {
                 for p in sql[..i].split(',').map(|x| x.trim()) {
-                    if let Some(r) = p.strip_prefix('C') { if r.split(':').nth(1).and_then(|x| x.parse::<i64>().ok()).unwrap_or(0) >= 39 { dec = 1; } }
+                    if let Some(r) = p.strip_prefix('C') { let sc = r.split(':').nth(1).and_then(|x| x.parse::<i64>().ok()).unwrap_or(0); if sc >= 39 || sc < 0 { dec = 1; } }
                     if let Some(r) = p.strip_prefix('T') { if unhex(r).iter().any(|b| *b >= 128) { nonascii = 1; } }
                 }
                 sql = &sql[i + 3..];
@@ -561,8 +564,10 @@ fn features(ops: &[String]) -> Vec<u64> {
         if up.contains("INSERT") || up.contains("UPDATE") { wr = 1; }
         if up.contains("LPAD") || up.contains("RPAD") || up.contains("REPEAT") || up.contains("SPACE") { fmask |= 1; }
         if up.contains("DATE_FORMAT") || up.contains("TIME_FORMAT") || up.contains("STRFTIME") { fmask |= 2; }
+        if up.contains("FORMAT(") && !up.contains("_FORMAT(") || up.contains(" FORMAT(") { fmask |= 4; }
+        for kw in ["LIMIT ", "OFFSET "] { for (i, _) in up.match_indices(kw) { let d: String = up[i + kw.len()..].chars().take_while(|c| c.is_ascii_digit()).collect(); if d.len() >= 19 && d.parse::<u128>().map(|v| v >= (1u128 << 63)).unwrap_or(true) { biglim = 1; } } }
     }
-    vec![nest, run, nonascii, chain, dec, wr, fmask, jq]
+    vec![nest, run, nonascii, chain, dec, wr, fmask, jq, biglim]
 }
 fn api_term(kind_code: u32, ops: &[String], o: &ApiOut) -> String {
     let f: Vec<String> = features(ops).iter().map(|x| x.to_string()).collect();
@@ -647,7 +652,8 @@ const FUNCS: [&str; 86] = ["ABS", "ACOS", "ASCII", "ASIN", "ATAN", "ATAN2", "BIN
 const AGGS: [&str; 6] = ["COUNT", "SUM", "AVG", "MIN", "MAX", "TOTAL"];
 const STRS: [&str; 20] = ["'abc'", "''", "'héllo'", "'€'", "'a,b,c'", "'2024-02-29'", "'12:34:56'", "'2024-02-29 12:34:56'", "'%a_'", "'0'", "'-1'", "' x '",
     "'𝄞𝄞'", "'1e5'", "'it''s'", "'12:00:00.5'", "'550e8400-e29b-41d4-a716-446655440000'", "'[1,2,3]'", "'{\"a\":1}'", "'1 day'"];
-const INTS: [&str; 14] = ["0", "1", "-1", "2", "3", "7", "10", "100", "255", "256", "1000", "65536", "2147483647", "-2147483648"];
+// moderate integers only: overflow of SQL integer arithmetic is C20's subject, not explored here
+const INTS: [&str; 14] = ["0", "1", "-1", "2", "3", "7", "10", "100", "255", "256", "1000", "-7", "12", "31"];
 impl<'a> Sql<'a> {
     fn col(&mut self) -> String { self.rng.pick(&["id", "a", "b", "c", "x", "y", "t1.a", "t2.x", "bo", "tm", "dt", "n", "k", "nosuch"]).to_string() }
     fn lit(&mut self) -> String {
@@ -664,7 +670,7 @@ impl<'a> Sql<'a> {
         match self.rng.below(16) {
             0 | 1 => self.col(),
             2 | 3 => self.lit(),
-            4 | 5 => { let op = self.rng.pick(&["+", "-", "*", "/", "%", "||", "=", "<>", "<", "<=", ">", ">=", "AND", "OR", "&", "|", "<<", ">>"]).to_string(); format!("{} {} {}", self.expr(d - 1), op, self.expr(d - 1)) }
+            4 | 5 => { let op = self.rng.pick(&["+", "-", "*", "/", "%", "||", "=", "<>", "<", "<=", ">", ">=", "AND", "OR", "&", "|"]).to_string(); format!("{} {} {}", self.expr(d - 1), op, self.expr(d - 1)) }
             6 => format!("({})", self.expr(d - 1)),
             7 => { let f = self.rng.pick(&FUNCS).to_string(); let n = self.rng.below(4); let args: Vec<String> = (0..n).map(|_| self.expr(d - 1)).collect(); format!("{}({})", f, args.join(", ")) }
             8 => format!("{} {}", self.rng.pick(&["NOT", "-", "+", "~"]).to_string(), self.expr(d - 1)),
@@ -756,8 +762,9 @@ fn mutate_tokens(rng: &mut Rng, s: &str) -> String {
     t.join(" ")
 }
 fn hexs(b: &[u8]) -> String { hex(b) }
-fn gen_param(rng: &mut Rng) -> String {
-    let ints: [i64; 12] = [0, 1, -1, 2, 10, 255, i64::MAX, i64::MIN, i32::MAX as i64, i32::MIN as i64, 1 << 40, -(1 << 40)];
+/// `mild`: no extreme integers (used when the parameter can land inside SQL integer arithmetic: C20's regime)
+fn gen_param(rng: &mut Rng, mild: bool) -> String {
+    let ints: [i64; 12] = if mild { [0, 1, -1, 2, 10, 255, 7, -7, 1000, -1000, 31, 12] } else { [0, 1, -1, 2, 10, 255, i64::MAX, i64::MIN, i32::MAX as i64, i32::MIN as i64, 1 << 40, -(1 << 40)] };
     let floats: [f64; 10] = [0.0, -0.0, 1.5, -2.25, f64::NAN, f64::INFINITY, f64::NEG_INFINITY, f64::MAX, f64::MIN_POSITIVE, 1e300];
     match rng.below(20) {
         0 => "N".into(),
@@ -779,7 +786,7 @@ fn gen_param(rng: &mut Rng) -> String {
     }
 }
 const PARAM_SQL: [&str; 16] = ["SELECT ?", "SELECT * FROM t1 WHERE a = ?", "SELECT * FROM t1 WHERE a = $1 AND b = $2", "INSERT INTO t2 (id, x, y) VALUES (?, ?, ?)",
-    "INSERT INTO t1 (id, a, b) VALUES ($1, $2, $3)", "UPDATE t1 SET b = ? WHERE id = ?", "DELETE FROM t2 WHERE id = ?", "SELECT ? + ?", "SELECT * FROM t2 WHERE y LIKE ?",
+    "INSERT INTO t1 (id, a, b) VALUES ($1, $2, $3)", "UPDATE t1 SET b = ? WHERE id = ?", "DELETE FROM t2 WHERE id = ?", "SELECT ? || ?", "SELECT * FROM t2 WHERE y LIKE ?",
     "SELECT * FROM t1 WHERE id = :id", "SELECT $2", "SELECT $0", "SELECT $4294967295", "INSERT INTO t1 (id, tm, dt, u, d) VALUES (?, ?, ?, ?, ?)", "SELECT '?' , ? -- ?", "SELECT * FROM t1 LIMIT ? OFFSET ?"];
 
 /// one api case = list of ops (escaped, joined with " ~ ")
@@ -802,9 +809,10 @@ fn gen_api_cases(rng: &mut Rng, n: usize) -> Vec<(String, &'static str)> {
             let m = if rng.chance(2, 3) { mutate_tokens(rng, &s) } else { mutate_text(rng, &s) };
             (vec![format!("{} {}", rng.pick(&["E", "E", "Q", "P"]), m)], "api_nearvalid")
         } else if bucket < 72 {
-            let sql = if rng.chance(4, 5) { rng.pick(&PARAM_SQL).to_string() } else { Sql { rng }.stmt() };
+            let tmpl = rng.chance(4, 5);
+            let sql = if tmpl { rng.pick(&PARAM_SQL).to_string() } else { Sql { rng }.stmt() };
             let np = rng.below(6);
-            let ps: Vec<String> = (0..np).map(|_| gen_param(rng)).collect();
+            let ps: Vec<String> = (0..np).map(|_| gen_param(rng, !tmpl)).collect();
             (vec![format!("{} {} | {}", rng.pick(&["X", "X", "PB", "PQ"]), ps.join(","), sql)], "api_params")
         } else if bucket < 78 {
             (vec![format!("{} {}", rng.pick(&["E", "Q"]), gen_pragma(rng))], "api_pragma")
@@ -825,7 +833,7 @@ fn gen_api_cases(rng: &mut Rng, n: usize) -> Vec<(String, &'static str)> {
                 0 => "K".to_string(), 1 => "C".to_string(), 2 => "R".to_string(),
                 3 => format!("E {}", rng.pick(&["BEGIN", "COMMIT", "ROLLBACK", "SAVEPOINT s1", "ROLLBACK TO SAVEPOINT s1", "RELEASE SAVEPOINT s1"])),
                 4 => format!("E {}", gen_pragma(rng)),
-                5 => { let np = rng.below(4); let ps: Vec<String> = (0..np).map(|_| gen_param(rng)).collect(); format!("{} {} | {}", rng.pick(&["X", "PB", "PQ"]), ps.join(","), rng.pick(&PARAM_SQL)) }
+                5 => { let np = rng.below(4); let ps: Vec<String> = (0..np).map(|_| gen_param(rng, false)).collect(); format!("{} {} | {}", rng.pick(&["X", "PB", "PQ"]), ps.join(","), rng.pick(&PARAM_SQL)) }
                 6 => format!("P {}", Sql { rng }.stmt()),
                 _ => format!("{} {}", rng.pick(&["E", "E", "Q"]), Sql { rng }.stmt()),
             }).collect();
@@ -875,13 +883,13 @@ fn literal_inputs(rng: &mut Rng, n: usize) -> Vec<(String, String, &'static str)
     for _ in 0..n {
         let f = rng.pick(&fns).to_string();
         let base: String = match f.as_str() {
-            "hex" => { let k = rng.below(5) as usize * 2; (0..k).map(|_| *rng.pick(&['0', '1', '9', 'a', 'F', 'f', 'A', 'g', '+', 'é', '€', ' '])).collect() }
-            "bin" => { let k = rng.below(20) as usize; (0..k).map(|_| *rng.pick(&['0', '1', '0', '1', '0', '1', '2', '+', 'é', '€'])).collect() }
-            "time" => { let fr: String = { let k = rng.below(9) as usize; (0..k).map(|_| *rng.pick(&['0', '1', '5', '9', '0', '3', 'é', '€', '𝄞', '-', '+', 'x'])).collect() };
+            "hex" => { let k = rng.below(5) as usize * 2; let na = rng.chance(1, 6); (0..k).map(|_| if na { *rng.pick(&['0', 'a', 'F', 'é', '€', ' ']) } else { *rng.pick(&['0', '1', '9', 'a', 'F', 'f', 'A', 'g', '+', '-', ' ', 'x']) }).collect() }
+            "bin" => { let k = rng.below(20) as usize; let na = rng.chance(1, 6); (0..k).map(|_| if na { *rng.pick(&['0', '1', '0', '1', 'é', '€']) } else { *rng.pick(&['0', '1', '0', '1', '0', '1', '2', '+', '-', ' ']) }).collect() }
+            "time" => { let fr: String = { let k = rng.below(9) as usize; let na = rng.chance(1, 6); (0..k).map(|_| if na { *rng.pick(&['0', '1', '5', 'é', '€', '𝄞']) } else { *rng.pick(&['0', '1', '5', '9', '0', '3', '-', '+', 'x', ' ']) }).collect() };
                         format!("{}{}:{}:{}{}{}", rng.pick(&["", " ", "\u{a0}"]), rng.pick(&["0", "12", "23", "24", "+7", "x", ""]), rng.pick(&["00", "59", "60", "7"]), rng.pick(&["00", "59", "60", "3"]), if rng.chance(4, 5) { "." } else { "" }, fr) }
             "uuid" => { let mut s = String::from("550e8400-e29b-41d4-a716-446655440000"); if rng.chance(2, 3) { s = mutate_text(rng, &s); } s }
             "vector" => { let k = rng.below(4); let xs: Vec<String> = (0..k).map(|_| rng.pick(&["1", "2.5", "-0", "nan", "é", "", " 3 "]).to_string()).collect(); format!("{}{}{}", rng.pick(&["[", "", " [", "\u{a0}["]), xs.join(","), rng.pick(&["]", "", "] ", "]\u{3000}"])) }
-            _ => { let q = *rng.pick(&["'", "\"", ""]); let q2 = *rng.pick(&["'", "\"", ""]); let k = rng.below(4) as usize; let mid: String = (0..k).map(|_| *rng.pick(&['a', 'é', '\'', '"', ' ', '1', '€'])).collect(); format!("{}{}{}{}{}", rng.pick(&["", " ", "\u{2028}"]), q, mid, q2, rng.pick(&["", " ", "\n"])) }
+            _ => { let q = *rng.pick(&["'", "\"", ""]); let q2 = *rng.pick(&["'", "\"", ""]); let k = if rng.chance(1, 8) { 0 } else { 1 + rng.below(4) as usize }; let mid: String = (0..k).map(|_| *rng.pick(&['a', 'é', 'b', 'n', ' ', '1', '€', 'T', '.'])).collect(); format!("{}{}{}{}{}", rng.pick(&["", " ", "\u{2028}"]), q, mid, q2, rng.pick(&["", " ", "\n"])) }
         };
         v.push((f, base, "lit_random"));
     }
@@ -922,7 +930,7 @@ fn gen(a: &Args) {
             else if let Some(r) = l.strip_prefix("api ") { apis.push((r.to_string(), "replay")); }
         }
     } else {
-        let (nl, nt, na) = if a.thorough() { (60_000, 20_000, 12_000) } else { (5_000, 1_500, 700) };
+        let (nl, nt, na) = if a.thorough() { (40_000, 12_000, 20_000) } else { (2_400, 900, 1_500) };
         lexes = lex_inputs(&mut rng, nl);
         lits = literal_inputs(&mut rng, nt);
         apis = deep_cases(a.thorough());
